@@ -4,6 +4,7 @@ go 1.25.11
 
 require (
 	github.com/PowerDNS/lightningstream v0.0.0
+	github.com/PowerDNS/lmdb-go v1.9.3
 	github.com/PowerDNS/simpleblob v1.0.0
 	github.com/anishathalye/porcupine v1.3.0
 	github.com/prometheus/client_golang v1.23.2
@@ -12,7 +13,6 @@ require (
 
 require (
 	github.com/CrowdStrike/csproto v0.35.0 // indirect
-	github.com/PowerDNS/lmdb-go v1.9.3 // indirect
 	github.com/beorn7/perks v1.0.1 // indirect
 	github.com/c2h5oh/datasize v0.0.0-20231215233829-aa82cc1e6500 // indirect
 	github.com/cespare/xxhash/v2 v2.3.0 // indirect
@@ -24,9 +24,11 @@ require (
 	github.com/prometheus/client_model v0.6.2 // indirect
 	github.com/prometheus/common v0.68.0 // indirect
 	github.com/prometheus/procfs v0.16.1 // indirect
+	github.com/samber/lo v1.52.0 // indirect
 	github.com/wojas/go-healthz v0.2.0 // indirect
 	go.uber.org/atomic v1.11.0 // indirect
 	golang.org/x/sys v0.45.0 // indirect
+	golang.org/x/text v0.37.0 // indirect
 	google.golang.org/protobuf v1.36.11 // indirect
 	gopkg.in/yaml.v2 v2.4.0 // indirect
 )
